@@ -3,7 +3,7 @@ import numpy as np
 
 from .. import graphs as G
 from .. import oracles as O
-from .common import call, dtype_variants_agree, layout_variants_agree
+from .common import call, dtype_variants_agree, layout_variants_agree, padding_invariant
 
 PROP = 'C15'
 ANCHORS = ['kcore_bu', 'kcore_bd', 'score_wu', 'kcoreness_centrality_bu', 'kcoreness_centrality_bd']
@@ -213,5 +213,9 @@ def run(case, bct, REC):
             REC.check(PROP, 'score_wu', 'size', int(sn) == len(Sm), dict(det, got_size=sn), ('one_decimal_weights',))
             if 0 < len(Sm) < len(members(W)):
                 REC.note_nontrivial(PROP, 'score_wu', W, sv)
+    if 4 <= n <= 9 and case['ws'] % 9 == 0:
+        for k in (1, 2, 3):
+            padding_invariant(REC, PROP, fname, f, A, 300, case['ws'], ('pair', 'scalar'), 0.0, args=(k,))
+        padding_invariant(REC, PROP, cname, lambda X: getattr(bct, cname)(X)[0], A, 120, case['ws'], ('node',), 0.0)
     if n <= 5:
         REC.sample(PROP, {'A': A, 'directed': directed}, cap=4)
